@@ -5,8 +5,10 @@
 //   obj (D0 D1 …) (A0 A1 …)
 //
 //   D    ::= (PARENT (ATTR*) EQ EIT SER)         definition i is named T<i>; PARENT ::= - | <index of an earlier definition>
-//   ATTR ::= (NAME TY KIND DFLT)                 NAME: plain member name (atom); KIND ::= n | c | d | g | r
-//                                                (normal, constant, derived, given_or_derived, reference); DFLT ::= - | VAL
+//   ATTR ::= (NAME TY KIND DFLT) | (NAME TY KIND DFLT o)
+//                                                NAME: plain member name (atom); KIND ::= n | c | d | g | r
+//                                                (normal, constant, derived, given_or_derived, reference); DFLT ::= - | VAL;
+//                                                a trailing `o` is `override => true`
 //   TY   ::= int | str | bool | any | (opt TY)
 //   VAL  ::= (i N) | (s xHEX) | (b t|f) | u
 //   EQ   ::= - | (s NAME) | (l NAME*)            `equality` absent / given as a string / given as an array
@@ -214,11 +216,26 @@ func (t *ty) inst(v val) bool {
 	return v.k == "u" || t.elt.inst(v)
 }
 
+// asgSpec: the specification's reading of "every instance of u is an instance of t" on the type alphabet
+func asgSpec(t, u *ty) bool {
+	switch t.k {
+	case "any":
+		return true
+	case "opt":
+		if u.k == "opt" {
+			return asgSpec(t, u.elt)
+		}
+		return asgSpec(t.elt, u)
+	}
+	return t.k == u.k
+}
+
 type attr struct {
-	name string
-	ty   *ty
-	kind string // n c d g r
-	dflt *val
+	name     string
+	ty       *ty
+	kind     string // n c d g r
+	dflt     *val
+	override bool
 }
 
 type def struct {
@@ -294,10 +311,10 @@ func defOf(e sx.Sexp) def {
 		panic(fmt.Errorf("bad attribute list %s", e.List[1]))
 	}
 	for _, a := range e.List[1].List {
-		if !a.IsList || len(a.List) != 4 {
+		if !a.IsList || (len(a.List) != 4 && !(len(a.List) == 5 && !a.List[4].IsList && a.List[4].Atom == "o")) {
 			panic(fmt.Errorf("bad attribute %s", a))
 		}
-		at := attr{name: nameOf(a.List[0]), ty: tyOf(a.List[1]), kind: atomOf(a.List[2])}
+		at := attr{name: nameOf(a.List[0]), ty: tyOf(a.List[1]), kind: atomOf(a.List[2]), override: len(a.List) == 5}
 		if strings.Index("ncdgr", at.kind) < 0 || len(at.kind) != 1 {
 			panic(fmt.Errorf("bad kind %s", at.kind))
 		}
@@ -393,6 +410,8 @@ func actionOf(e sx.Sexp) action {
 type sattr struct {
 	attr
 	owner int
+	// the attribute's type after definition: a given_or_derived attribute whose type rejects undef becomes Optional[T]
+	ety *ty
 	// effective default: given value, or undef for an Optional[...] type / a given_or_derived attribute
 	hasDflt bool
 	dv      val
@@ -453,9 +472,9 @@ func mkSpec(defs []def) *spec {
 			all = append(all, s.all[d.parent]...)
 			wf = s.wf[d.parent]
 		}
-		seen := map[string]bool{}
-		for _, a := range all {
-			seen[a.name] = true
+		inheritedIdx := map[string]int{}
+		for k, a := range all {
+			inheritedIdx[a.name] = k
 		}
 		own := map[string]bool{}
 		for _, a := range d.attrs {
@@ -465,11 +484,7 @@ func mkSpec(defs []def) *spec {
 			own[a.name] = true
 		}
 		for _, a := range d.attrs {
-			sa := sattr{attr: a, owner: i}
-			if seen[a.name] {
-				wf = false // overriding is outside the generated universe: a repeated name is simply malformed
-			}
-			seen[a.name] = true
+			sa := sattr{attr: a, owner: i, ety: a.ty}
 			switch a.kind {
 			case "c":
 				if a.dflt == nil {
@@ -480,6 +495,9 @@ func mkSpec(defs []def) *spec {
 					wf = false
 				}
 			}
+			if a.kind == "g" && !a.ty.inst(val{k: "u"}) {
+				sa.ety = &ty{k: "opt", elt: a.ty}
+			}
 			if a.dflt != nil {
 				if !a.ty.inst(*a.dflt) {
 					wf = false
@@ -488,7 +506,20 @@ func mkSpec(defs []def) *spec {
 			} else if a.ty.k == "opt" || a.kind == "g" {
 				sa.hasDflt, sa.dv = true, val{k: "u"}
 			}
-			all = append(all, sa)
+			if k, ok := inheritedIdx[a.name]; ok {
+				// an overriding attribute takes the place of the one it overrides: it must say `override => true`, a constant
+				// (final) is overridden by a constant only, and the type may only narrow
+				pa := all[k]
+				if !a.override || (pa.kind == "c" && a.kind != "c") || !asgSpec(pa.ety, sa.ety) {
+					wf = false
+				}
+				all[k] = sa
+			} else {
+				if a.override {
+					wf = false
+				}
+				all = append(all, sa)
+			}
 		}
 		s.all = append(s.all, all)
 		find := func(n string) *sattr {
@@ -526,6 +557,12 @@ func mkSpec(defs []def) *spec {
 				if a.settable() {
 					eqa = append(eqa, a.name)
 				}
+			}
+		}
+		for _, n := range eqa {
+			// an inherited equality attribute overridden by a derived or constant one no longer has a stored value
+			if a := find(n); a == nil || !a.settable() {
+				wf = false
 			}
 		}
 		s.eqa = append(s.eqa, eqa)
@@ -597,11 +634,14 @@ func (d *def) text(name, parent string) string {
 	if len(d.attrs) > 0 {
 		var as []string
 		for _, a := range d.attrs {
-			if a.kind == "n" && a.dflt == nil {
+			if a.kind == "n" && a.dflt == nil && !a.override {
 				as = append(as, quote(a.name)+" => "+a.ty.text())
 				continue
 			}
 			fs := []string{"type => " + a.ty.text()}
+			if a.override {
+				fs = append(fs, "override => true")
+			}
 			if k := kindName(a.kind); k != "" {
 				fs = append(fs, "kind => "+k)
 			}
@@ -674,11 +714,14 @@ func (d *def) initHash(name string, parent px.Type) *types.Hash {
 	if len(d.attrs) > 0 {
 		var as []*types.HashEntry
 		for _, a := range d.attrs {
-			if a.kind == "n" && a.dflt == nil {
+			if a.kind == "n" && a.dflt == nil && !a.override {
 				as = append(as, types.WrapHashEntry2(a.name, a.ty.px()))
 				continue
 			}
 			fs := []*types.HashEntry{types.WrapHashEntry2("type", a.ty.px())}
+			if a.override {
+				fs = append(fs, types.WrapHashEntry2("override", types.WrapBoolean(true)))
+			}
 			if k := kindName(a.kind); k != "" {
 				fs = append(fs, types.WrapHashEntry2("kind", types.WrapString(k)))
 			}
@@ -709,9 +752,15 @@ func (d *def) initHash(name string, parent px.Type) *types.Hash {
 
 // ---- running against pcore ----------------------------------------------------------------------------------------
 
-func classify(e interface{}) string {
+func classify(e interface{}) (cls string) {
 	switch e := e.(type) {
 	case issue.Reported:
+		// rendering the message may itself panic (an issue code without a registered message): that is a fault
+		defer func() {
+			if recover() != nil {
+				cls = "fault"
+			}
+		}()
 		if strings.Contains(e.Error(), "runtime error:") {
 			return "fault"
 		}
@@ -954,7 +1003,7 @@ func (s *spec) wellTypedNew(act *action) bool {
 			return false
 		}
 		for i, v := range act.vals {
-			if !pos[i].ty.inst(v) {
+			if !pos[i].ety.inst(v) {
 				return false
 			}
 		}
@@ -968,7 +1017,7 @@ func (s *spec) wellTypedNew(act *action) bool {
 				a = p
 			}
 		}
-		if a == nil || seen[n] || !a.ty.inst(act.vals[i]) {
+		if a == nil || seen[n] || !a.ety.inst(act.vals[i]) {
 			return false
 		}
 		seen[n] = true
@@ -1202,7 +1251,7 @@ func sameShape(s *spec, t1, t2 int) bool {
 	}
 	for i := range s.all[t1] {
 		a, b := s.all[t1][i], s.all[t2][i]
-		if a.name != b.name || a.kind != b.kind || a.ty.sexp().String() != b.ty.sexp().String() || a.hasDflt != b.hasDflt || a.dv.String() != b.dv.String() {
+		if a.name != b.name || a.kind != b.kind || a.ty.sexp().String() != b.ty.sexp().String() || a.hasDflt != b.hasDflt || a.dv.String() != b.dv.String() || a.override != b.override {
 			return false
 		}
 	}
